@@ -97,18 +97,27 @@ func (muxer *Muxer) process(vp, ap Packetizer) {
 			continue
 		}
 
-		frame := f.(*codec.Frame)
+		muxer.packetize(vp, ap, f.(*codec.Frame))
+	}
+}
 
-		switch frame.MediaType {
-		case codec.MediaTypeVideo:
-			if err := vp.Packetize(frame); err != nil {
-				muxer.logger.Errorf("tsmuxer: muxVideoTag error - %s", err.Error())
-			}
-		case codec.MediaTypeAudio:
-			if err := ap.Packetize(frame); err != nil {
-				muxer.logger.Errorf("tsmuxer: muxAudioTag error - %s", err.Error())
-			}
-		default:
+// packetize 处理一帧；畸形帧引起的 panic 只丢弃这一帧，转换协程继续处理后续的帧
+func (muxer *Muxer) packetize(vp, ap Packetizer, frame *codec.Frame) {
+	defer func() {
+		if r := recover(); r != nil {
+			muxer.logger.Errorf("tsmuxer: malformed frame dropped; r = %v", r)
 		}
+	}()
+
+	switch frame.MediaType {
+	case codec.MediaTypeVideo:
+		if err := vp.Packetize(frame); err != nil {
+			muxer.logger.Errorf("tsmuxer: muxVideoTag error - %s", err.Error())
+		}
+	case codec.MediaTypeAudio:
+		if err := ap.Packetize(frame); err != nil {
+			muxer.logger.Errorf("tsmuxer: muxAudioTag error - %s", err.Error())
+		}
+	default:
 	}
 }
